@@ -310,9 +310,21 @@ pub fn any_tag(a: &Any) -> String {
     }
 }
 
+/// width of a decoded unit in UTF-8 bytes: the first UTF-16 unit of a character carries the whole character, the second
+/// unit of a surrogate pair nothing; every other element counts 1 (as in every offset kind)
+pub fn unit_w8(u: &codec::Unit) -> u32 {
+    if u.kind == "str" {
+        u.val.chars().next().map(|c| c.len_utf8() as u32).unwrap_or(0)
+    } else {
+        1
+    }
+}
+
 #[derive(Default, Clone)]
 pub struct Tags {
     pub by_tag: HashMap<String, Id>,
+    /// character units: id -> width in UTF-8 bytes (`unit_w8`)
+    pub w8: HashMap<Id, u32>,
 }
 
 impl Tags {
@@ -324,6 +336,7 @@ impl Tags {
                     if !u.val.is_empty() {
                         self.by_tag.insert(format!("s:{}", u.val), u.id);
                     }
+                    self.w8.insert(u.id, unit_w8(u));
                 }
                 "any" | "json" | "embed" => {
                     self.by_tag.insert(format!("v:{}", u.val), u.id);
@@ -337,6 +350,18 @@ impl Tags {
     }
     pub fn of_char(&self, c: char) -> Id {
         self.by_tag.get(&format!("s:{}", c)).copied().unwrap_or((0, 0))
+    }
+    /// the element ids of a string read through the public API: one per UTF-16 unit
+    pub fn of_str(&self, s: &str) -> Vec<Id> {
+        let mut ids = Vec::new();
+        for ch in s.chars() {
+            let id = self.of_char(ch);
+            ids.push(id);
+            if ch.len_utf16() == 2 {
+                ids.push((id.0, id.1 + 1));
+            }
+        }
+        ids
     }
     pub fn of_any(&self, a: &Any) -> Id {
         self.by_tag.get(&format!("v:{}", any_tag(a))).copied().unwrap_or((0, 0))
@@ -460,14 +485,7 @@ pub fn walk_text<T: ReadTxn>(txn: &T, t: &TextRef, prefix: &str, tags: &Tags, pv
         match &d.insert {
             Out::Any(Any::String(s)) => {
                 concat.push_str(s);
-                for ch in s.chars() {
-                    ids.push(tags.of_char(ch));
-                    if ch.len_utf16() == 2 {
-                        let mut i = tags.of_char(ch);
-                        i.1 += 1;
-                        ids.push(i);
-                    }
-                }
+                ids.extend(tags.of_str(s));
             }
             other => ids.push(walk_value(txn, other, tags, pv, depth + 1)),
         }
